@@ -137,12 +137,19 @@ func (th *Thread) schedPoint(ready func() bool, desc string) {
 	if len(p.threads) == 1 && ready == nil {
 		return
 	}
-	if len(p.timers) > 0 {
-		p.advanceClock()
-	}
 	th.ready = ready
 	th.desc = desc
+	// time passes when the running thread blocks (and at time.Now / Sleep),
+	// not at every scheduling point
+	if len(p.timers) > 0 && ready != nil && th.completed == nil && !ready() {
+		p.advanceClock()
+	}
 	en := p.enabledThreads()
+	if len(en) == 0 && p.eng.Cfg.ConcreteClock && p.pendingTimers() {
+		// discrete-event time: nothing can run, so time jumps until a timer expires
+		p.clock = BV(64, 1<<61)
+		en = p.enabledThreads()
+	}
 	if len(en) == 0 {
 		th.ready = nil
 		p.deadlock()
@@ -190,6 +197,10 @@ func (th *Thread) exitSwitch() {
 		p.advanceClock()
 	}
 	en := p.enabledThreads()
+	if len(en) == 0 && p.eng.Cfg.ConcreteClock && p.pendingTimers() {
+		p.clock = BV(64, 1<<61)
+		en = p.enabledThreads()
+	}
 	if len(en) == 0 {
 		p.deadlock()
 	}
@@ -217,8 +228,22 @@ func (p *Path) deadlock() {
 	p.fail("deadlock", "deadlock", msg)
 }
 
+func (p *Path) pendingTimers() bool {
+	for _, ch := range p.timers {
+		if ch.timer != nil && ch.timer.active {
+			return true
+		}
+	}
+	return false
+}
+
 // advanceClock lets an arbitrary amount of time pass.
 func (p *Path) advanceClock() {
+	if p.eng.Cfg.ConcreteClock {
+		// discrete-event time: a small concrete tick
+		p.clock = Bin(OpAdd, p.clock, BV(64, 1000))
+		return
+	}
 	nc := p.freshVar("clock", 64)
 	p.assume(Cmp(OpUle, p.clock, nc))
 	p.assume(Cmp(OpUle, nc, BV(64, 1<<62)))
@@ -253,6 +278,10 @@ func (p *Path) timerPoll(ch *Chan) {
 	if ts == nil || !ts.active || len(ch.buf) >= 1 {
 		return
 	}
+	if ts.polledAt == p.clock {
+		return // already decided "not yet" for this instant
+	}
+	ts.polledAt = p.clock
 	if p.branch(Cmp(OpUle, ts.deadline, p.clock)) {
 		ch.buf = append(ch.buf, p.timeValue(p.clock))
 		if ts.period != nil {
